@@ -1449,17 +1449,13 @@ class sptensor:
         array([[ 0.4718..., -0.8816...],
                [-0.8816..., -0.4718...]])
         """
-        old = np.setdiff1d(np.arange(self.ndims), n).astype(int)
-        # tnt calculation is a workaround for missing sptenmat
-        mutatable_sptensor = (
-            self.copy().reshape((np.prod(np.array(self.shape)[old]), 1), old).squeeze()
-        )
-        if isinstance(mutatable_sptensor, (int, float, np.generic)):
+        if all(extent == 1 for extent in self.shape):
             raise ValueError(
                 "Cannot call nvecs on sptensor with only singleton dimensions"
             )
-        tnt = mutatable_sptensor.spmatrix().transpose()
-        y = tnt.transpose().dot(tnt)
+        # Gram matrix of the mode-n unfolding
+        Xn = self.to_sptenmat(rdims=np.array([n])).double()
+        y = Xn.dot(Xn.transpose())
         if r < y.shape[0] - 1:
             # y is real symmetric: use the symmetric solver as tensor.nvecs does
             w, v = scipy.sparse.linalg.eigsh(y, r)
